@@ -48,9 +48,12 @@ def _unpack_ast_target(target: ast.AST) -> Iterable[ast.Name]:
     if isinstance(target, ast.Name):
         yield target
         return
-    if isinstance(target, ast.Tuple):
+    if isinstance(target, (ast.Tuple, ast.List)):
         for subtarget in target.elts:
             yield from _unpack_ast_target(subtarget)
+        return
+    if isinstance(target, ast.Starred):
+        yield from _unpack_ast_target(target.value)
 
 
 def iter_assignments(root: ast.Module) -> Iterable[ast.Name]:
